@@ -108,6 +108,84 @@ def pool():
 
 
 POOL = pool()
+
+
+def spelled():
+    """[(label, [alternative factories])] aligned with POOL: the same configuration with the arguments given by position
+    in the documented order (and sequences given as lists).  Flags given as 0 / 1 are NOT judged here: the unchanged
+    tree itself reads some flags with `is True` (LaTeX middlewares), so their meaning for non-bool values is not fixed."""
+    alt = {}
+    for r, ei, d in itertools.product((True, False), (True, False), ("{", '"')):
+        alt[f"AddEnclosing({r},{ei},{d})"] = [lambda r=r, ei=ei, d=d: mw.AddEnclosingMiddleware(r, ei, d, False)]
+    for km, eu in itertools.product((True, False), (True, False)):
+        alt[f"LatexEncoding({km},{eu})"] = [lambda km=km, eu=eu: mw.LatexEncodingMiddleware(km, eu, None, False)]
+    for kb, km in itertools.product((True, False), (True, False)):
+        alt[f"LatexDecoding({kb},{km})"] = [lambda kb=kb, km=km: mw.LatexDecodingMiddleware(False, kb, km)]
+    one = {
+        "RemoveEnclosing": mw.RemoveEnclosingMiddleware,
+        "NormalizeFieldKeys": mw.NormalizeFieldKeys,
+        "ResolveStringReferences": mw.ResolveStringReferencesMiddleware,
+        "MonthLong": mw.MonthLongStringMiddleware,
+        "MonthAbbr": mw.MonthAbbreviationMiddleware,
+        "MonthInt": mw.MonthIntMiddleware,
+        "SeparateCoAuthors": mw.SeparateCoAuthors,
+        "MergeCoAuthors": mw.MergeCoAuthors,
+        "SplitNameParts": mw.SplitNameParts,
+        "SortFieldsAlphabetically": mw.SortFieldsAlphabeticallyMiddleware,
+    }
+    for label, cls in one.items():
+        alt[label] = [lambda cls=cls: cls(False)]
+    names = ("author", "editor", "translator")
+    for label, cls in (("SeparateCoAuthors", mw.SeparateCoAuthors), ("MergeCoAuthors", mw.MergeCoAuthors), ("SplitNameParts", mw.SplitNameParts)):
+        alt[label].append(lambda cls=cls: cls(False, names))
+    alt["MergeNameParts(last)"] = [lambda: mw.MergeNameParts("last", False), lambda: mw.MergeNameParts("last", False, names)]
+    alt["MergeNameParts(first)"] = [lambda: mw.MergeNameParts("first", False)]
+    for o, cs in ((("b", "a"), False), (("year", "title"), False), (("B",), True), ((), False)):
+        alt[f"SortFieldsCustom({','.join(o)},{cs})"] = [lambda o=o, cs=cs: mw.SortFieldsCustomMiddleware(o, cs, False), lambda o=o, cs=cs: mw.SortFieldsCustomMiddleware(order=list(o), case_sensitive=cs, allow_inplace_modification=False)]
+    orders = [None, (Entry, String, Preamble), (ExplicitComment, ImplicitComment), (), (Preamble, Entry), (String,)]
+    for n, o in enumerate(orders):
+        for top in (True, False):
+            if o is None:
+                alt[f"SortBlocks(default,{top})"] = []
+            else:
+                alt[f"SortBlocks(o{n},{top})"] = [lambda o=o, top=top: mw.SortBlocksByTypeAndKeyMiddleware(o, top), lambda o=o, top=top: mw.SortBlocksByTypeAndKeyMiddleware(block_type_order=list(o), preserve_comments_on_top=top)]
+    return alt
+
+
+SPELLED = spelled()
+
+
+def run_spelled(li, acc):
+    """Every pool configuration, spelled by position / with 0-1 flags, behaves on library li as the keyword spelling:
+    same result (or the same kind of failure), input left alone, nothing shared."""
+    for mi, (label, fac) in enumerate(POOL):
+        for ai, afac in enumerate(SPELLED.get(label, [])):
+            case = {"spelled_library": li, "middleware": label, "spelling": ai}
+            acc.trace(2)
+            acc.case(nontrivial_key=("spelled", li, mi, ai))
+            try:
+                base = canon(fac().transform(base_library(li)))
+            except RecursionError:
+                continue
+            except Exception as e:
+                base = ("raised", type(e).__name__)
+            lib = base_library(li)
+            snap = canon(lib)
+            out = None
+            try:
+                out = afac().transform(lib)
+                got = canon(out)
+            except RecursionError:
+                continue
+            except Exception as e:
+                got = ("raised", type(e).__name__)
+            acc.step(("spelled", li, label), ai, hash(repr(got)))
+            if got != base:
+                acc.violation({"oracle": "same_configuration_same_behaviour", "middleware": label.split("(")[0], "what": "result"}, {"case": case, "observed": repr(got)[:300], "expected": repr(base)[:300]}, size=li)
+            elif canon(lib) != snap:
+                acc.violation({"oracle": "same_configuration_same_behaviour", "middleware": label.split("(")[0], "what": "input changed (copy mode not respected)"}, {"case": case, "observed": "input changed", "expected": "unchanged"}, size=li)
+            elif out is not None and alias(lib, out):
+                acc.violation({"oracle": "same_configuration_same_behaviour", "middleware": label.split("(")[0], "what": "output shares objects with the input"}, {"case": case, "observed": [describe(o) for o in alias(lib, out)[:3]], "expected": "nothing shared"}, size=li)
 FORMATS = [("\t", 0, False, "\n\n"), ("", "auto", True, "\n"), ("  ", 12, False, ""), (" ", "auto", False, "\n\n"), ("\t", 3, True, " "), ("", 0, False, "\n% x\n")]
 
 
@@ -116,7 +194,7 @@ def bounds(tier):
 
 
 def shards(tier):
-    return [("stacks", li, mi) for li in range(NLIBS) for mi in range(len(POOL))] + [("write", li) for li in range(NLIBS)] + [("direct", li) for li in range(NLIBS)] + [("leak", mi) for mi in range(len(POOL))]
+    return [("stacks", li, mi) for li in range(NLIBS) for mi in range(len(POOL))] + [("write", li) for li in range(NLIBS)] + [("direct", li) for li in range(NLIBS)] + [("spelled", li) for li in range(NLIBS)] + [("leak", mi) for mi in range(len(POOL))]
 
 
 def run_stack(li, idxs, acc, judged_prefixes):
@@ -280,6 +358,9 @@ def run_shard(shard, tier, acc):
     if shard[0] == "direct":
         run_direct(shard[1], acc)
         return
+    if shard[0] == "spelled":
+        run_spelled(shard[1], acc)
+        return
     if shard[0] == "leak":
         # one long-lived instance over all libraries (forwards and backwards) must behave like fresh instances
         label, fac = POOL[shard[1]]
@@ -301,7 +382,9 @@ def run_shard(shard, tier, acc):
 
 
 def replay(case, acc):
-    if "direct_library" in case:
+    if "spelled_library" in case:
+        run_spelled(case["spelled_library"], acc)
+    elif "direct_library" in case:
         run_direct(case["direct_library"], acc)
     elif "stack_idx" in case:
         run_stack(case["library"], tuple(case["stack_idx"]), acc, set())
